@@ -63,11 +63,16 @@ def scenarios(quick):
     for I in (1, 2):
         for when in ((1,), (2,), (1, 2), (1, 3)):
             out.append({'fam': 'E', 'I': I, 's0': 0.0, 'script': ((0.0, 1, 'none'),) * 3, 'extredef': when, 'bound': 1})
-    # a callback whose result has no truth value (a list of two elements) fails like a raising one
+    # a callback whose result has no truth value (a list of two elements), or that fails with an exception that is no
+    # Exception (CancelledError), fails like a raising one
     for I in (1, 2):
-        for sc in (((0.0, 1, 'retlist'),), ((0.0, 1, 'none'), (0.0, 1, 'retlist'))):
+        for sc in (((0.0, 1, 'retlist'),), ((0.0, 1, 'none'), (0.0, 1, 'retlist')),
+                   ((0.0, 1, 'raisebase'),), ((0.0, 1, 'none'), (0.0, 1, 'raisebase')), ((1.5, 1, 'raisebase'),)):
             out.append({'fam': 'R', 'I': I, 's0': 0.0, 'script': sc, 'bound': 1})
             out.append({'fam': 'R', 'I': I, 's0': 0.0, 'script': sc, 'ext': (len(sc) + 1, 'pre'), 'bound': 1})
+    for I2 in (1, 2):
+        out.append({'fam': 'D', 'I': 1, 's0': 0.0, 'script': ((0.0, 1, 'none'),), 'I2': I2, 'script2': ((0.0, 1, 'raisebase'),),
+                    'bound': 1})
     # the callback is passed under a second name of the same function (al::cb; .timer(..;al)) and that name is redefined
     for I in (1, 2):
         for sc in (((0.0, 1, 'redefine'), (0.0, 1, 'none')), ((0.0, 1, 'none'), (0.0, 1, 'redefine'), (0.0, 1, 'none'))):
@@ -160,7 +165,7 @@ class Run:
                 cbname = ('al' if self.sc.get('alias') else 'cb') if name == 't' else 'cb2'
                 self.kl('%s::{%s%s()}' % (cbname, 'tick' if name == 't' else 'tock', '2' if nv == 'v2' else ''))
                 m.version = nv
-            elif action in ('raise', 'retlist'):
+            elif action in ('raise', 'retlist', 'raisebase'):
                 m.raised = True
                 if m.live:
                     m.live, m.why = False, 'raised'        # a dead-or-alive timer: only "no resurrection" is checked
@@ -168,6 +173,10 @@ class Run:
                 if action == 'retlist':
                     import numpy as _np
                     return _np.array([1, 2])        # no truth value: the timer code fails on it like on an exception
+                if action == 'raisebase':
+                    import asyncio as _asyncio
+                    # a failure that is no Exception (a Python callback waiting on a cancelled future; .x() raises SystemExit)
+                    raise _asyncio.CancelledError('callback failure injected by the harness')
                 raise KeyError('callback failure injected by the harness')    # the class the function wrapper itself catches around its name lookup
         finally:
             m.busy = False
